@@ -113,6 +113,10 @@ fn run(matches: &ArgMatches) -> Result<()> {
         vec![stack.applied()[0].clone()]
     };
 
+    if patches.is_empty() {
+        return Err(super::Error::NoAppliedPatches.into());
+    }
+
     if !matches.get_flag("allow-empty") {
         let mut empty_patches: Vec<&PatchName> = Vec::new();
         for pn in &patches {
